@@ -570,11 +570,41 @@ func sameLoad(a, b ssa.Value) bool {
 	if !ok {
 		return false
 	}
+	ib, ok := b.(ssa.Instruction)
+	if !ok {
+		return false
+	}
+	// a store to the field matters only if it can execute between the two loads
+	between := func(x, st, y ssa.Instruction) bool {
+		// x ... st ... y possible?
+		fromX := x.Block() == st.Block() && ir.IndexIn(x) < ir.IndexIn(st)
+		if !fromX {
+			for _, sc := range x.Block().Succs {
+				if sc == st.Block() || ir.Reach(sc, nil, nil)[st.Block()] {
+					fromX = true
+				}
+			}
+		}
+		if !fromX {
+			return false
+		}
+		if st.Block() == y.Block() && ir.IndexIn(st) < ir.IndexIn(y) {
+			return true
+		}
+		for _, sc := range st.Block().Succs {
+			if sc == y.Block() || ir.Reach(sc, nil, nil)[y.Block()] {
+				return true
+			}
+		}
+		return false
+	}
 	written := false
 	ir.Instrs(ia.Parent(), func(in ssa.Instruction) {
 		if st, isSt := in.(*ssa.Store); isSt {
 			if _, f, isF := ir.FieldAddr(st.Addr); isF && f == fa {
-				written = true
+				if between(ia, st, ib) || between(ib, st, ia) {
+					written = true
+				}
 			}
 		}
 	})
